@@ -186,6 +186,21 @@ class Domain:
     def _contains(self, points, params=Points.empty()):
         raise NotImplementedError
 
+    @staticmethod
+    def _common_bounding_box(bounds):
+        """Translated and rotated domains return one bounding box per parameter row
+        (shape (k, 2*dim)) if their motion depends on the parameters. Domains that
+        combine the boxes of their operands (union, intersection, product) index
+        them in the flat form [axis_1_min, axis_1_max, ...]: reduce the boxes of
+        all rows to the one box that contains all of them.
+        """
+        if isinstance(bounds, torch.Tensor) and bounds.dim() == 2:
+            common = torch.empty_like(bounds[0])
+            common[::2] = torch.min(bounds[:, ::2], dim=0).values
+            common[1::2] = torch.max(bounds[:, 1::2], dim=0).values
+            return common
+        return bounds
+
     @abc.abstractmethod
     def bounding_box(self, params=Points.empty(), device="cpu"):
         """Computes the bounds of the domain.
